@@ -1227,7 +1227,7 @@ func (vc *VC) feasible(cond string) bool {
 	defer os.Remove(f.Name())
 	// a resource limit, not a time limit: the answer must not depend on how busy the machine is
 	r, _, _ := runSolver(solverSpec{"z3-5.1.0-rlimit", func(file string, t int) []string {
-		return []string{"z3-new", "rlimit=3000000", fmt.Sprintf("-T:%d", t), file}
+		return []string{"z3-new", "smt.auto_config=false", "rlimit=3000000", fmt.Sprintf("-T:%d", t), file}
 	}}, f.Name(), 30)
 	return r != "unsat"
 }
